@@ -240,6 +240,8 @@ enum Outcome {
     Status(u16),
     Reset,
     Hang,
+    /// the status, sent 11 s (real time) after the request arrived
+    Slow(u16),
 }
 
 impl Outcome {
@@ -248,6 +250,7 @@ impl Outcome {
             Outcome::Status(s) => s.to_string(),
             Outcome::Reset => "reset".to_string(),
             Outcome::Hang => "hang".to_string(),
+            Outcome::Slow(s) => format!("slow{}", s),
         }
     }
 }
@@ -372,6 +375,10 @@ async fn serve_endpoint(
         Outcome::Hang => {
             std::future::pending::<()>().await;
             respond(500)
+        }
+        Outcome::Slow(s) => {
+            tokio::time::sleep(Duration::from_secs(11)).await;
+            respond(s)
         }
     }
 }
@@ -916,6 +923,10 @@ async fn exec(ctx: &mut Ctx, line: &str) -> OpResult {
                 outcomes.push(match tok {
                     "reset" => Outcome::Reset,
                     "hang" => Outcome::Hang,
+                    _ if tok.starts_with("slow") => match tok[4..].parse::<u16>() {
+                        Ok(s) if (200..1000).contains(&s) => Outcome::Slow(s),
+                        _ => return Err(bad(format!("EP: bad outcome '{}'", tok))),
+                    },
                     _ => match tok.parse::<u16>() {
                         // hyper cannot send a 1xx status as the final answer (it would
                         // put a 500 on the wire), so those are not accepted.
